@@ -7,12 +7,17 @@ callback, `cb` = the real Manager callback), time.time_ns and uuid.uuid4 are scr
 An op list (JSON-able):
   ["add", key, size, now]         AllocateRequest
   ["write", key, hex]             the client half of allocate(): SharedMemory(shmid, create=True, size) + fill
-  ["close", key, rdid|None]       CloseCallback (None = the writer's close)
-  ["get", key, now, [cands]]      GetRequest; cands script uuid4
+  ["close", key, label|None]      CloseCallback (None = the writer's close; label = the reader that the get with this label was granted)
+  ["get", key, now, [cands]]      GetRequest; the LAST element of cands is the label of this reader (how the history refers to it later);
+                                  where the implementation draws from uuid.uuid4, cands also script it (leading elements = ids of other
+                                  readers, to force collisions).  The reader id itself is whatever the server answers: the harness keeps
+                                  label -> id, numbers the ids by first appearance, and never interprets them
+                                  (after the run the op carries what was executed: get -> 5th element [id number], close -> 4th element id number)
   ["purge", key]                  PurgeRequest
   ["io", jid, fault]              disk job number jid (submission order): page-in = the real body; page-out = the real body up to its unlink
   ["unlink", jid]                 page-out only: the rest of the body (shm.unlink), after which the job reports ok / failed
   ["cb", jid]                     the real Manager callback of the job
+  ["drainf", seed, percent]       macro: like drain, each io step failing with that probability (decided by seed and job number)
   ["drain"] ["alloc", key, hex, tries, 0] ["read", key, tries, 0]
                                   macros, expanded while the history runs into the concrete ops above (complete every pending job;
                                   a patient writer: add, drain and retry on wait, then write + close; a patient reader likewise)
@@ -27,6 +32,7 @@ import hashlib
 import json
 import logging
 import re
+import threading
 import types
 
 from common import cN, cZ, cbool, clist, copt, cstr
@@ -49,35 +55,41 @@ def formula_shmid(key):
 
 @contextlib.contextmanager
 def patched():
-    """replace the seams for the duration of a run (restored afterwards)"""
+    """replace the seams for the duration of a run (restored afterwards).  SharedMemory / the Disk pools / open are needed to drive
+    the store at all; the clock and uuid seams are taken where they exist (reader ids are never forced, only observed)"""
     import cascade.shm.dataset as dataset
     import cascade.shm.disk as disk
     clock, uuids = F.Clock(), F.UUIDs()
-    saved = {
-        (dataset, "SharedMemory"): dataset.SharedMemory, (dataset, "time"): dataset.time, (dataset, "uuid"): dataset.uuid,
-        (dataset, "get_capacity"): dataset.get_capacity,
-        (disk, "SharedMemory"): disk.SharedMemory, (disk, "ThreadPoolExecutor"): disk.ThreadPoolExecutor,
-        (disk, "multiprocessing"): disk.multiprocessing,
-    }
-    had_open = "open" in disk.__dict__
-    dataset.SharedMemory = F.FakeSharedMemory
-    dataset.time = clock
-    dataset.uuid = uuids
-    dataset.get_capacity = lambda: 2 ** 62
-    disk.SharedMemory = F.FakeSharedMemory
-    disk.ThreadPoolExecutor = F.ManualExecutor
-    disk.multiprocessing = types.SimpleNamespace(resource_tracker=types.SimpleNamespace(unregister=lambda *a, **k: None))
-    disk.open = F.fake_open
+    missing = object()
+    saved = []
+
+    def put(mod, name, value, optional=False):
+        old = mod.__dict__.get(name, missing)
+        if old is missing and optional:
+            return False
+        saved.append((mod, name, old))
+        setattr(mod, name, value)
+        return True
+
+    put(dataset, "SharedMemory", F.FakeSharedMemory)
+    seams = {"time": put(dataset, "time", clock, optional=True), "time_ns": put(dataset, "time_ns", clock.time_ns, optional=True),
+             "uuid": put(dataset, "uuid", uuids, optional=True), "uuid4": put(dataset, "uuid4", uuids.uuid4, optional=True)}
+    put(dataset, "get_capacity", lambda: 2 ** 62)
+    put(disk, "SharedMemory", F.FakeSharedMemory)
+    put(disk, "ThreadPoolExecutor", F.ManualExecutor)
+    put(disk, "multiprocessing", types.SimpleNamespace(resource_tracker=types.SimpleNamespace(unregister=lambda *a, **k: None)))
+    put(disk, "open", F.fake_open)
     prev = logging.root.manager.disable
     logging.disable(logging.CRITICAL)
     try:
-        yield types.SimpleNamespace(clock=clock, uuids=uuids, dataset=dataset, disk=disk)
+        yield types.SimpleNamespace(clock=clock, uuids=uuids, dataset=dataset, disk=disk, seams=seams)
     finally:
         logging.disable(prev)
-        for (mod, name), v in saved.items():
-            setattr(mod, name, v)
-        if not had_open:
-            del disk.open
+        for mod, name, old in reversed(saved):
+            if old is missing:
+                delattr(mod, name)
+            else:
+                setattr(mod, name, old)
 
 
 class ScriptSock:
@@ -128,8 +140,33 @@ class Driver:
         self.next_rd = 500000
         self.epilogue = None          # callable(driver) -> more ops | None, asked when the script runs dry
         self.wild_write = False
+        # reader ids: whatever strings the server hands out, numbered by first appearance; the history speaks of readers by label
+        self.rd_canon = {}            # id string -> number
+        self.handles = {}             # (key, label) -> {"idx": index of the granted get, "rdid": id string}
+        self.closing = None           # during/after a reader's close: the handle it refers to (or None) and the id string sent
+        self.beat = 0                 # progress counter for the watchdog
+        self.hang = None
+        self.lock_log = []            # (lock attribute, acq|rel|busy|reacquire) events of the Manager's plain locks
+        self.lock_marks = []          # len(lock_log) after each op
+        self.watched_locks = F.watch_locks(self.m, self.lock_log)
 
     # ---- helpers
+    def canon(self, rdid):
+        if rdid not in self.rd_canon:
+            self.rd_canon[rdid] = len(self.rd_canon)
+        return self.rd_canon[rdid]
+
+    def rdid_of(self, key, label):
+        """the id string a client sends when the history says `close key label`: the id granted to that reader; a label no reader of
+        this key carries = a confused client: the id another key's reader got under that label, else a made-up id"""
+        h = self.handles.get((key, label))
+        if h is not None:
+            return h, h["rdid"]
+        for (k2, l2), h2 in self.handles.items():
+            if l2 == label:
+                return None, h2["rdid"]
+        return None, "%08x" % (label & 0xffffffff)
+
     def shmid(self, key):
         return self.shmid_of.get(key) or formula_shmid(key)
 
@@ -155,6 +192,7 @@ class Driver:
     def next_request(self):
         api = self.api
         while True:
+            self.beat += 1
             # 1. the reply to the request we sent last
             if self.inflight is not None:
                 kind, i, op = self.inflight
@@ -167,6 +205,7 @@ class Driver:
                     fs = resp.free_space if isinstance(resp, api.FreeSpaceResponse) else None
                     ob = part + [fs, self.jobs_delta()]
                     self.obs.append(ob)
+                    self.lock_marks.append(len(self.lock_log))
                     if self.watch:
                         self.watch(self, i, op, ob)
                     continue
@@ -181,10 +220,14 @@ class Driver:
             if self.pc >= len(self.ops):
                 return api.ser(api.ShutdownCommand())
             i, op = self.pc, self.ops[self.pc]
-            if op[0] in ("drain", "alloc", "read"):
+            if op[0] in ("drain", "drainf", "alloc", "read"):
                 self.ops[i:i + 1] = self.expand(op)
                 continue
             self.pc += 1
+            if op[0] == "get":
+                del op[4:]
+            elif op[0] == "close":
+                del op[3:]
             req = self.request_of(op)
             if req is not None:
                 self.inflight = ("req", i, op)
@@ -208,6 +251,13 @@ class Driver:
         k = op[0]
         if k == "drain":
             return self.pending_job_steps()
+        if k == "drainf":
+            import random
+            out = self.pending_job_steps()
+            for o in out:
+                if o[0] == "io":
+                    o[2] = random.Random(op[1] * 1000003 + o[1]).random() * 100 < op[2]
+            return out
         last = self.obs[-1] if self.obs else None
         if k == "alloc":
             _, key, hx, tries, stage = op
@@ -237,7 +287,13 @@ class Driver:
             self.env.clock.now = op[3]
             return api.AllocateRequest(key=op[1], l=op[2], deser_fun="d")
         if k == "close":
-            return api.CloseCallback(key=op[1], rdid="" if op[2] is None else "%08x" % op[2])
+            if op[2] is None:
+                self.closing = None
+                return api.CloseCallback(key=op[1], rdid="")
+            h, rdid = self.rdid_of(op[1], op[2])
+            self.closing = {"handle": h, "rdid": rdid}
+            op.append(self.canon(rdid))
+            return api.CloseCallback(key=op[1], rdid=rdid)
         if k == "get":
             self.last_now = max(self.last_now, op[2])
             self.env.clock.now = op[2]
@@ -264,14 +320,16 @@ class Driver:
         if k == "get":
             self.env.uuids.script = []
             if not isinstance(resp, api.GetResponse):
+                op.append([])
                 return ["get", None, 0, None, errkind(getattr(resp, "error", "?"))]
             if resp.error:
+                op.append([])
                 ok_shape = (resp.shmid == "" and resp.l == 0 and resp.rdid == "")
                 return ["get", None if ok_shape else "?", 0, None, resp.error]
-            try:
-                rd = int(resp.rdid, 16) if re.fullmatch(r"[0-9a-f]{8}", resp.rdid) else -1
-            except ValueError:
-                rd = -1
+            rd = self.canon(resp.rdid) if resp.rdid else -1
+            op.append([rd] if rd >= 0 else [])
+            if op[3] and rd >= 0:
+                self.handles[(op[1], op[3][-1])] = {"idx": self.pc - 1, "rdid": resp.rdid, "label": op[3][-1], "key": op[1]}
             return ["get", self.key_of.get(resp.shmid, "?" + resp.shmid), resp.l, rd, ""]
         if k in ("close", "purge"):
             if not isinstance(resp, api.OkResponse):
@@ -324,10 +382,30 @@ class Driver:
         raise ValueError(k)
 
     def run(self):
+        """the whole history runs in a daemon thread watched from here: a call into the implementation that blocks (a lock taken
+        twice, a wait for a wake-up that never comes, a job half that does not end) ends the history with crash = ["Hang", ...]
+        instead of hanging the check; the blocked thread is abandoned"""
+        done = threading.Event()
+
+        def body():
+            try:
+                self.srv.start()
+            except F.Hang as h:
+                self.hang = str(h)
+            except Exception as e:   # an exception left the serve loop: the store is dead
+                self.crash = [type(e).__name__, repr(e)[:200], max(0, self.pc - 1)]
+            finally:
+                done.set()
+        t = threading.Thread(target=body, daemon=True, name="verif-shm-history")
+        t.start()
         try:
-            self.srv.start()
-        except Exception as e:   # an exception left the serve loop: the store is dead
-            self.crash = [type(e).__name__, repr(e)[:200], max(0, self.pc - 1)]
+            stuck = F.wait_or_hang(done, lambda: self.beat, lambda: [t] + self.board.busy_threads())
+            if stuck is not None and not done.is_set():
+                self.hang = self.hang or stuck
+            if self.hang is not None:
+                i = max(0, self.pc - 1)
+                del self.ops[self.pc:]       # the replayable case: the history up to the op that blocked
+                self.crash = ["Hang", f"{self.ops[i] if i < len(self.ops) else ''} never returned: {self.hang}"[:300], i]
         finally:
             self.board.abort_all()
             try:
@@ -389,10 +467,10 @@ def c_op(nm, op):
         return f"Add {nm.n(op[1])} {cN(op[2])} {cZ(op[3])}"
     if k == "write":
         return f"Write {nm.n(op[1])} {c_bytes(op[2])}"
-    if k == "close":
-        return f"Close {nm.n(op[1])} {copt(op[2], cN)}"
-    if k == "get":
-        return f"Get {nm.n(op[1])} {cZ(op[2])} {clist([cN(c) for c in op[3]])}"
+    if k == "close":      # the id that was sent (4th element, filled in by the run), else the label itself
+        return f"Close {nm.n(op[1])} {copt(op[3] if len(op) > 3 else op[2], cN)}"
+    if k == "get":        # the id that was handed out (5th element, filled in by the run): the model validates it instead of predicting it
+        return f"Get {nm.n(op[1])} {cZ(op[2])} {clist([cN(c) for c in (op[4] if len(op) > 4 else op[3])])}"
     if k == "purge":
         return f"Purge {nm.n(op[1])}"
     if k == "io":
